@@ -313,7 +313,7 @@ func (g *Gen) OtherLine() *Node {
 	return line
 }
 
-var soupNums = []string{"0", "-0", "0.0", "1E+5", "1.50e3", "1e400", "9007199254740993", "18446744073709551616", "123456789012345678901234567890", "3.141592653589793238462643383279", "-1", "1.0", "100", "2e-7", "7469113720208097282", "0.1", "1e0", "12345678901234567890.123"}
+var soupNums = []string{"-0.0", "-0e0", "-0.000", "-1e-400", "1e-400", "0e0", "-0E+5", "0", "-0", "0.0", "1E+5", "1.50e3", "1e400", "9007199254740993", "18446744073709551616", "123456789012345678901234567890", "3.141592653589793238462643383279", "-1", "1.0", "100", "2e-7", "7469113720208097282", "0.1", "1e0", "12345678901234567890.123"}
 var soupStrs = []string{"", "plain", "with space", "quote\"inside", "back\\slash", "tab\there", "nl\nhere", "<tag>&amp;", " sep ", "é漢字", "😀 astral 𝔘", "$dollar", "a.b.c", "{\"json\":1}", "null", "true", "123", "/slash/", "\u0001ctl\u001f", "\u007fdel", "mail@example.com", "ünï@cödé.com", "2020-01-01T00:00:00Z"}
 
 // SpecialRunes: every C0 control character, DEL, C1 controls, format and
